@@ -110,6 +110,18 @@ CLAIMS = {
          "incarnation-guarded record/invalidate) -- Kani and the MIR route both need Vec<HistoryEntry> models that were not built; revm's "
          "touch/materialisation semantics inside the journal.",
     design="5/C07"),
+ "C10": dict(
+    text="Bounded model checking of ParallelState's read path and commit-side storage glue on the real code (ParallelStateView::db_storage, "
+         "ParallelCacheState::apply_account_state, update_storage_slot; nested DashMap model with per-key locks and the Entry API): after the "
+         "ordered commit of ANY journal account (all status bytes; destroyed / created / empty-touched / changed, slot changed or not) "
+         "db_storage serves exactly what revm's State serves -- sequentially, and when a speculative worker's cache-filling read races the "
+         "commit (either role running atomically at every conflicting visible operation of the other: context bound A|B|A): a concurrent "
+         "read never changes what the state later serves. This check found defect F1 (fixed in 7f18662).",
+    note=TRUST + "NOT decided: the field-by-field equality of CacheAccountInfo's status transitions (selfdestruct / newly_created / "
+         "touch_empty_eip161 / change / increment_balance / drain_balance) with revm's CacheAccount and of the extracted BundleState / reverts "
+         "with revm's (they are ghosts setting the documented status class here; the differential harness against revm-database's MIR was not "
+         "built); db_basic / db_code_by_hash; real rayon scheduling in the bundle builder. 2 addresses x 2 slots, 8-bit values.",
+    design="5/C10"),
 }
 NA = {}
 props = [json.loads(l) for l in open(os.path.join(V, "properties.jsonl"))]
